@@ -1,4 +1,5 @@
 import PqModel.IoFault
+import PqModel.IoFaultSrc
 
 /-! # C14 — I/O failures and truncated files are always reported, never silently absorbed
 
@@ -139,6 +140,71 @@ example :
     let good := runCalls (faultSink ⟨some 5, false, false, true⟩) (fun _ => true) (initW false none) plan
     bad.2 = [false, false] ∧ bad.1.u.sk.held = [0x50, 0x41, 0x52, 0x31, 4, 5, 6, 9] ∧
       good.2 = [false, true] := by decide
+
+/-! ## Fault points per `Write` call -/
+
+/-- the call-indexed sinks (the `i`-th `Write` call of the destination fails whatever it is
+offered; transient or sticky, whole or half accepted) are conforming writers -/
+theorem call_faults_covered (f : CallFault) : Conforming (callSink f) := callSink_conforming f
+
+/-- **no_silent_loss** for fault points per call: whichever `Write` call of the destination fails
+(a one-byte write of the thrift encoder straight to an unbuffered destination included), if every
+site of the plan propagates and every API call returned nil, the destination holds exactly the
+bytes of the complete file. -/
+theorem no_silent_loss_call (f : CallFault) (table : String → Bool) (cap : Option Nat)
+    (calls : List (List Op)) (pre : List Op) (fs : String)
+    (hprop : Propagates table (calls ++ [pre ++ [Op.flushBuf fs]]))
+    (hnil : ∀ r ∈ (runCalls (callSink f) table (initW (0, false) cap) (calls ++ [pre ++ [Op.flushBuf fs]])).2,
+      r = false) :
+    (runCalls (callSink f) table (initW (0, false) cap) (calls ++ [pre ++ [Op.flushBuf fs]])).1.u.sk.held
+      = planBytes (calls ++ [pre ++ [Op.flushBuf fs]]) :=
+  no_silent_loss (callSink f) (callSink_conforming f) table (0, false) cap calls pre fs hprop hnil
+
+/-- satisfiable, and the shape of a long-form thrift list header (`0xF0|type`, then the size as a
+varint) whose first one-byte write drops its error (seeded change C14-3b): unbuffered, the
+destination rejects exactly that call and accepts the next ones — every call returns nil and the
+file lacks the byte; with the site propagating the call reports; buffered, Close reports anyway. -/
+example :
+    let plan := [[Op.write "drop" [0xF9], Op.write "size" [0x0F]], closeSeq magicPAR1 [] [] [[9]] "close"]
+    let bad := runCalls (callSink ⟨0, false, false⟩) (fun s => s != "drop") (initW (0, false) none) plan
+    let good := runCalls (callSink ⟨0, false, false⟩) (fun _ => true) (initW (0, false) none) plan
+    let buffered := runCalls (callSink ⟨0, false, false⟩) (fun s => s != "drop") (initW (0, false) (some 4)) plan
+    bad.2 = [false, false] ∧ bad.1.u.sk.held = [0x0F, 9] ∧ good.2 = [true, false] ∧
+      buffered.2 = [false, true] := by decide
+
+/-! ## Source side of the verbatim copy (`WriteRowGroup`) -/
+
+/-- **copy_nil_complete.** The copy site of the verbatim column-chunk path
+(`offsetTrackingWriter.copySection`, with its `n != length` check), for every conforming
+destination, buffered or not, and every behaviour of the source (complete; ending early with
+io.EOF after any number of bytes; failing with another error): a nil result means the chain has
+accepted exactly the bytes of the section and the offset advanced by its length — the effect of
+the fault-free plan operation `Op.readFrom`. -/
+theorem copy_nil_complete {σ} (m : SinkM σ) (hm : Conforming m) (w : W σ) (data : Bytes)
+    (f : Option SrcFault) (s : String) (h : (copySection m true w data f).2 = false) :
+    Good w (copySection m true w data f).1 [Op.readFrom s data] :=
+  copySection_nil_complete m hm w data f s h
+
+/-- **copy_fault_reported.** A source that stops before the end of the section — with io.EOF or
+with another error — makes the copy site return an error, whatever the destination does. -/
+theorem copy_fault_reported {σ} (m : SinkM σ) (hm : Conforming m) (w : W σ) (data : Bytes)
+    (f : SrcFault) (hcut : f.cut < data.length) :
+    (copySection m true w data (some f)).2 = true :=
+  copySection_reports m hm w data f hcut
+
+/-- satisfiable; and the check is what matters: WITHOUT it (`checked = false`, the code before the
+repair, where the count returned by `ReadFrom` was dropped) a source that ends early with io.EOF
+after 2 of 5 bytes gives a nil result and a short chunk — unbuffered and buffered alike. -/
+example :
+    let src : Option SrcFault := some ⟨2, true⟩
+    let m := faultSink ⟨none, false, false, false⟩
+    (copySection m false (initW false none) [1, 2, 3, 4, 5] src).2 = false ∧
+    (copySection m false (initW false none) [1, 2, 3, 4, 5] src).1.u.deliv = [1, 2] ∧
+    (copySection m false (initW false (some 4)) [1, 2, 3, 4, 5] src).2 = false ∧
+    (copySection m true (initW false none) [1, 2, 3, 4, 5] src).2 = true ∧
+    (copySection m true (initW false (some 4)) [1, 2, 3, 4, 5] src).2 = true ∧
+    (copySection m true (initW false (some 4)) [1, 2, 3, 4, 5] none).2 = false ∧
+    (copySection m true (initW false (some 4)) [1, 2, 3, 4, 5] none).1.u.deliv = [1, 2, 3, 4, 5] := by decide
 
 /-! ## Reader side -/
 
